@@ -218,6 +218,9 @@ type Exec struct {
 	panicMsg      string
 	onEnd         []func(EndKind)
 	notes         []Fail
+	altBuf        []uint16
+	timeBuf       []uint16
+	idleBuf       []*thread
 	record        bool
 	releasePoints bool
 	events        []string
@@ -332,8 +335,8 @@ func (ex *Exec) finish(k EndKind) {
 // is not chosen the caller parks on its wake channel (unless it is done).
 func (ex *Exec) decide() {
 	self := ex.running
-	var alts, timeAlts []uint16
-	var idle []*thread
+	alts, timeAlts := ex.altBuf[:0], ex.timeBuf[:0]
+	idle := ex.idleBuf[:0]
 	for _, t := range ex.threads {
 		if t.done || t.pend == nil {
 			continue
@@ -363,8 +366,9 @@ func (ex *Exec) decide() {
 		}
 	}
 	if len(alts) == 0 {
-		alts = timeAlts
+		alts = append(alts, timeAlts...)
 	}
+	ex.altBuf, ex.timeBuf, ex.idleBuf = alts[:0], timeAlts[:0], idle[:0]
 	if len(alts) == 0 {
 		ex.terminal()
 		if self != nil && !self.done {
@@ -440,7 +444,7 @@ func (ex *Exec) decide() {
 		default:
 			chosen = alts[0]
 		}
-		d := Decision{Alts: alts, Chosen: chosen, CostBefore: ex.cost, SwitchCost: switchCost, Running: runID, Sig: uint32(ex.sig), NoBranch: ex.noBranch}
+		d := Decision{Alts: append([]uint16(nil), alts...), Chosen: chosen, CostBefore: ex.cost, SwitchCost: switchCost, Running: runID, Sig: uint32(ex.sig), NoBranch: ex.noBranch}
 		if int(chosen>>4) != runID {
 			ex.cost += switchCost
 		}
@@ -499,7 +503,7 @@ func (ex *Exec) spawn(name string, fn func(), daemon bool) *thread {
 	}
 	t.pend = &Pending{Kind: KStart, Seq: ex.NextSeq()}
 	ex.threads = append(ex.threads, t)
-	go func() {
+	startTask(func() {
 		defer close(t.exited)
 		<-t.wake
 		if t.abort {
@@ -523,8 +527,37 @@ func (ex *Exec) spawn(name string, fn func(), daemon bool) *thread {
 			ex.decide()
 		}()
 		fn()
-	}()
+	})
 	return t
+}
+
+// Logical threads run on pooled goroutines (their stacks stay grown, which
+// saves the stack copying of fresh goroutines in every execution). A goroutine
+// that is unwound with Goexit simply leaves the pool.
+type runner struct{ task chan func() }
+
+var runnerPool = make(chan *runner, 64)
+
+func startTask(f func()) {
+	select {
+	case r := <-runnerPool:
+		r.task <- f
+	default:
+		r := &runner{task: make(chan func(), 1)}
+		go r.loop()
+		r.task <- f
+	}
+}
+
+func (r *runner) loop() {
+	for f := range r.task {
+		f()
+		select {
+		case runnerPool <- r:
+		default:
+			return
+		}
+	}
 }
 
 func trimStack(b []byte) string {
